@@ -41,7 +41,9 @@ Retained(t, recs, onebased, tril) == Len(Oriented(Kept(recs, onebased), tril))
 
 -----------------------------------------------------------------------------
 (* Layer A *)
-\* bounds check as coded; Strict = after "fix: ... position equal to the chromosome length"
+\* bounds check: the tabix loader tests pos >= length (strict); _sanitize_records tests pos > length, so a position
+\* EQUAL to the chromosome length is accepted - open known finding F3 (the repair breaks an existing test that
+\* feeds 1-based positions with --zero-based, see known_findings.json)
 ExcessA(t, rec, strict) ==
   IF strict THEN rec[2] >= ChromLen(t, rec[1]) \/ rec[4] >= ChromLen(t, rec[3])
   ELSE rec[2] > ChromLen(t, rec[1]) \/ rec[4] > ChromLen(t, rec[3])
@@ -56,6 +58,14 @@ PixelOfA(t, rec) == <<BinOfA(t, rec[1], rec[2]), BinOfA(t, rec[3], rec[4]), Valu
 BinnedA(t, recs, onebased, tril) ==
   LET o == Oriented(Kept(recs, onebased), tril) IN
     MergeOf(<<[k \in DOMAIN o |-> PixelOfA(t, o[k])]>>, <<"sum">>)
+
+\* the input class of known finding F3: the ONLY out-of-chromosome anchors are positions equal to the length
+AtLength(t, rec) == rec[2] = ChromLen(t, rec[1]) \/ rec[4] = ChromLen(t, rec[3])
+OtherwiseOut(t, rec) == rec[2] < 0 \/ rec[4] < 0 \/ rec[2] > ChromLen(t, rec[1]) \/ rec[4] > ChromLen(t, rec[3])
+KnownFinding_F3(t, recs, onebased) ==
+  LET K == Kept(recs, onebased) IN
+    /\ \E k \in DOMAIN K : AtLength(t, K[k])
+    /\ \A k \in DOMAIN K : ~OtherwiseOut(t, K[k])
 
 -----------------------------------------------------------------------------
 (* pre-binned pixel records <<bin1, bin2, v>> (COO): create/_ingest.py:_sanitize_pixels + validate_pixels *)
